@@ -61,7 +61,11 @@ func NewSolver(ctx *Ctx) (*Solver, error) {
 }
 
 func (s *Solver) start() error {
-	s.cmd = exec.Command("z3", "-in", "-smt2")
+	bin := "z3"
+	if b := os.Getenv("GOSYM_Z3"); b != "" {
+		bin = b
+	}
+	s.cmd = exec.Command(bin, "-in", "-smt2")
 	var err error
 	s.in, err = s.cmd.StdinPipe()
 	if err != nil {
@@ -152,6 +156,10 @@ func (s *Solver) Check(extra ...*Term) Result {
 			s.Assert(e)
 		}
 		defer s.Pop()
+	}
+	if d := os.Getenv("GOSYM_DUMPALL"); d != "" {
+		dumpN++
+		os.WriteFile(fmt.Sprintf("%s/c%d_%d.smt2", d, os.Getpid(), dumpN), []byte(s.Script(nil)), 0o644)
 	}
 	s.send(fmt.Sprintf("(set-option :timeout %d)\n(check-sat)\n", s.TimeoutMs))
 	r := s.readResult()
